@@ -953,18 +953,48 @@ pub fn probe<K: HKind>(mref: &MRef<K>, n: u32) -> usize {
 /// as `probe`, plus the auditor's verdict (structure and reference counts) at the moment the store
 /// is full and every probe diagram is alive, and whether all of them still denote their tables
 pub fn probe_audited<K: HKind>(mref: &MRef<K>, n: u32) -> (usize, Vec<String>) {
-    let mut held: Vec<(VT, K::F)> = vec![];
-    let mut i = 0;
-    let r = loop {
-        let t = K::probe_table(i, n);
-        match K::build(mref, &t) {
-            Ok(f) => held.push((t, f)),
-            Err(_) => break mref.with_manager_shared(|m| m.num_inner_nodes()),
+    // every second probe of a process fills the store from a short-lived helper thread: slots freed by the
+    // calling thread's collections must be available to every thread once the calling thread's session is over
+    static PROBES: std::sync::atomic::AtomicUsize = std::sync::atomic::AtomicUsize::new(0);
+    fn fill<K: HKind>(mr: &MRef<K>, n: u32, from: usize) -> (Vec<(VT, K::F)>, usize) {
+        let mut held: Vec<(VT, K::F)> = vec![];
+        let mut i = from;
+        let r = loop {
+            let t = K::probe_table(i, n);
+            match K::build(mr, &t) {
+                Ok(f) => held.push((t, f)),
+                Err(_) => break mr.with_manager_shared(|m| m.num_inner_nodes()),
+            }
+            i += 1;
+            if i > 4096 {
+                break usize::MAX;
+            }
+        };
+        (held, r)
+    }
+    let helper = PROBES.fetch_add(1, std::sync::atomic::Ordering::Relaxed) % 2 == 1;
+    let t0 = K::probe_table(0, n);
+    let (held, r) = match K::build(mref, &t0) {
+        // (the helper thread gets at the manager through the first probe diagram's handle)
+        Ok(f0) if helper => {
+            let (mut rest, r) = std::thread::scope(|s| {
+                let f0 = &f0;
+                s.spawn(move || {
+                    let mr = f0.manager_ref();
+                    fill::<K>(&mr, n, 1)
+                })
+                .join()
+                .unwrap()
+            });
+            rest.insert(0, (t0, f0));
+            (rest, r)
         }
-        i += 1;
-        if i > 4096 {
-            break usize::MAX;
+        Ok(f0) => {
+            let (mut rest, r) = fill::<K>(mref, n, 1);
+            rest.insert(0, (t0, f0));
+            (rest, r)
         }
+        Err(_) => (vec![], mref.with_manager_shared(|m| m.num_inner_nodes())),
     };
     let refs: Vec<&K::F> = held.iter().map(|x| &x.1).collect();
     let mut errs = K::audit(mref, &refs, true).errors;
